@@ -23,10 +23,10 @@ EXPECTED_CLASSES = ["values/point-on-centre", "values/point-on-plane", "values/d
 
 
 @st.composite
-def case_st(draw, sweep=False, lmax=6):
+def case_st(draw, sweep=False, lmax=6, npts=8):
     shells = draw(gen.basis(nmin=1, nmax=3 if sweep else 4, lmax=lmax))
     cents = [s["coord"] for s in shells]
-    pts = draw(gen.points_near(cents, nmin=1, nmax=8))
+    pts = draw(gen.points_near(cents, nmin=1, nmax=npts))
     orders = list(ALL) if sweep else draw(st.lists(st.sampled_from(ALL), min_size=2, max_size=5, unique=True))
     n = sum(nfunc(s) for s in shells)
     T = draw(st.none() | gen.transform_matrix(n))
@@ -119,7 +119,7 @@ def judge(case):
 
 def shards(tier):
     k, n = (16, 15) if tier == "quick" else (64, 120)
-    return [{"id": i, "n": n} for i in range(k)]
+    return [{"id": i, "n": n, "npts": 8 if tier == "quick" else 50} for i in range(k)]
 
 
 def shards_sweep(tier):
@@ -128,7 +128,7 @@ def shards_sweep(tier):
 
 
 SUBCHECKS = [
-    SubCheck("values", judge, shards, strategy=lambda sh: case_st()),
+    SubCheck("values", judge, shards, strategy=lambda sh: case_st(npts=sh.get("npts", 8))),
     SubCheck("sweep125", judge, shards_sweep, strategy=lambda sh: case_st(sweep=True, lmax=4)),
 ]
 EXHAUSTIVE = {"sweep125": "all 125 order triples (0..4)^3 for each swept basis"}
